@@ -331,6 +331,9 @@ impl Sim {
         crate::seams::install_clock(self.clock());
     }
 
+    pub fn parking(&self) -> bool {
+        self.lock().park
+    }
     pub fn set_park(&self, park: bool) {
         self.lock().park = park;
     }
